@@ -524,7 +524,11 @@ Definition spec_events (c : comp) (ops : list op) : list (list ev) := snd (srun 
    input  = (comp (op ...))
      comp = (0) json | (1) console | (2) observer | (3 (comp ...)) tee | (4 comp) sampler | (5 comp) hooked
           | (6 thr comp) level filter | (7 (field ...) comp) lazy
-     op   = (0 parent step w) | (1 node hi #msg (field ...) w [sugared])
+     op   = (0 parent step w) | (1 node hi #msg (field ...) w [sugared [(sink ...)]]) | (2 kind ...)
+            the optional last element of a logging call: the sinks whose Write FAILS for this call (see
+            [apply_faults]); (2 ...): something done by loggers OUTSIDE the tree (cores and sinks of their own;
+            same process) at this point of the history -- no part of any judged logger's path: dropped by
+            [dec_case]
      step = (0 (field ...) [sugared]) With | (1 (field ...) [sugared]) WithLazy | (2 #seg [sugared]) Named
           | (3 (field ...) [sugared]) Fields | (4) Sugar | (5) Desugar
      field = as Enc/WireEnc.v, or (100 #key) (101) (102 #key) (103 #key) mutable object / inline / array / stringer
@@ -617,11 +621,18 @@ Definition dec_sop (s : sx) : sop :=
   | 3%Z => SGroup (sx_n (sx_nth s 1)) (sx_b (sx_nth s 2)) (sx_z (sx_nth s 3))
   | _ => SHandle (sx_n (sx_nth s 1)) (sx_bool (sx_nth s 2)) (sx_b (sx_nth s 3)) (dec_sflds (sx_nth s 4)) (sx_z (sx_nth s 5))
   end.
+(* the operations of the judged tree: everything but the outside activity (2 ...) *)
+Definition is_ext (s : sx) : bool := Z.eqb (sx_z (sx_nth s 0)) 2.
+Definition tree_ops (i : sx) : list sx := filter (fun s => negb (is_ext s)) (sx_l (sx_nth i 1)).
 Definition dec_case (i : sx) : comp * list op :=
   (dec_comp (sx_size (sx_nth i 0)) (sx_nth i 0),
    if sx_bool (sx_nth i 2)
    then ODerive 0 (SNamed (sx_b (sx_nth i 3))) 0 :: scompile [[]] (map dec_sop (sx_l (sx_nth i 1)))
-   else map dec_op (sx_l (sx_nth i 1))).
+   else map dec_op (tree_ops i)).
+(* per logging call, the sinks whose Write fails for that call *)
+Definition dec_faults (i : sx) : list (list nat) :=
+  if sx_bool (sx_nth i 2) then []
+  else map (fun s => map sx_n (sx_l (sx_nth s 7))) (filter (fun s => negb (Z.eqb (sx_z (sx_nth s 0)) 0)) (tree_ops i)).
 
 Definition is_out (k : nat) (e : ev) : bool := match e with EOut k' _ => Nat.eqb k' k | _ => false end.
 Definition enc_ev (e : ev) : sx :=
@@ -650,12 +661,36 @@ Definition enc_log_end (nk : nat) (evs : list ev) : sx :=
 Definition enc_end (nk : nat) (l : list (list ev)) : sx := SL (map (enc_log_end nk) l).
 Definition enc_obs2 (nk : nat) (l : list (list ev)) : sx := SL [enc_obs nk l; enc_end nk l].
 
+(* FAULTS.  The WriteSyncer of an io leaf may fail a chosen write (error returned, nothing / a part /
+   all of the line consumed): ioCore.Write returns that error after the entry was encoded and its buffer
+   released, CheckedEntry.Write goes on with the remaining cores and reports the error on the logger's
+   ErrorOutput.  A failing sink keeps nothing of that line (the harness's sink: it records a line only when
+   it accepts it), so the fault removes that sink's line of that call from the observation -- and nothing
+   else: no logger, encoder state or Once cell depends on a sink, so every other sink's line of the same
+   call, the hook / sampler events of the call, and EVERY later entry of every logger (delivered to that
+   sink or to any other) are what the fault-free history prescribes.  Fields whose encoding fails (a
+   marshaler returning an error, a reflection failure, a panicking Stringer) are ordinary fields of the
+   shared field model (Enc/Fields.v: the <key>Error member), inside the tree or outside it.             *)
+Definition failed (fl : list nat) (e : ev) : bool :=
+  match e with EOut k _ => existsb (Nat.eqb k) fl | _ => false end.
+Definition drop_failed (fl : list nat) (evs : list ev) : list ev := filter (fun e => negb (failed fl e)) evs.
+(* fls: one list of failing sinks per logging call (missing: none) *)
+Fixpoint apply_faults (fls : list (list nat)) (l : list (list ev)) : list (list ev) :=
+  match l with
+  | [] => []
+  | evs :: r => match fls with
+                | [] => l
+                | fl :: fr => drop_failed fl evs :: apply_faults fr r
+                end
+  end.
+
 Definition model (i : sx) : sx :=
-  let '(c, ops) := dec_case i in enc_obs2 (nsinks c) (run_events c ops).
+  let '(c, ops) := dec_case i in enc_obs2 (nsinks c) (apply_faults (dec_faults i) (run_events c ops)).
 (* the property's oracle: the observation -- what every call made observable at once AND what every sink
-   still holds for that call at the end of the history -- is what the path specification prescribes *)
+   still holds for that call at the end of the history -- is what the path specification prescribes (for the
+   sinks that accepted the write) *)
 Definition spec (i o : sx) : bool :=
-  let '(c, ops) := dec_case i in sx_eqb o (enc_obs2 (nsinks c) (spec_events c ops)).
+  let '(c, ops) := dec_case i in sx_eqb o (enc_obs2 (nsinks c) (apply_faults (dec_faults i) (spec_events c ops))).
 
 (* well-formedness of the standard-library answers carried by the static fields of a case *)
 Definition wf_sfld (s : sfld) : bool := match s with SF f => wf_fld f | _ => true end.
